@@ -4,6 +4,7 @@ from __future__ import annotations
 
 from typing import Any, Callable, ClassVar, Final, Tuple, Union, cast
 
+import jax.numpy as jnp
 import numpy as np
 from flax import nnx
 import onnx_ir as ir
@@ -713,10 +714,20 @@ class DotProductAttentionPlugin(PrimitiveLeafPlugin):
                 q: Any,
                 k: Any,
                 v: Any,
-                mask: Any | None = None,
                 bias: Any | None = None,
+                mask: Any | None = None,
                 **kwargs: Any,
             ) -> Any:
+                if kwargs.get("is_causal", False):
+                    raise NotImplementedError(
+                        "nnx.dot_product_attention(is_causal=True) is not supported "
+                        "by the ONNX lowering; pass an explicit causal mask instead"
+                    )
+                dtype = kwargs.pop("dtype", None)
+                if dtype is not None:
+                    # The library computes in `dtype`: promote the operands up
+                    # front so trace, abstract eval and lowering all see it.
+                    q, k, v = (jnp.asarray(x, dtype=dtype) for x in (q, k, v))
                 operands = [q, k, v]
                 has_mask = mask is not None
                 has_bias = bias is not None
